@@ -56,7 +56,7 @@ def event_rv(item):
 
 
 # ------------------------------------------------------------------------------------ W1
-@harness('W1', targets=['kopf._cogs.clients.watching.continuous_watch', 'kopf._cogs.clients.watching.watch_objs'], props=['C19', 'C03', 'C01'],
+@harness('W1', targets=['kopf._cogs.clients.watching.continuous_watch', 'kopf._cogs.clients.watching.watch_objs'], props=['C19', 'C03', 'C01', 'C14', 'C17', 'C12'],
          clauses=['list_first', 'listed_objects_as_none_events', 'listed_bookmark', 'since_is_last_yielded',
                   'known_events_passed_through', 'unknown_types_skipped', 'gone_returns', 'error_raises',
                   'listing_connection_errors_return', 'other_failures_propagate', 'pause_stops_watching', 'frame',
@@ -666,7 +666,7 @@ def _w2_infinite(vc):
 
 
 @harness('W2', targets=['kopf._cogs.clients.watching.streaming_block', 'kopf._cogs.clients.watching.infinite_watch'],
-         props=['C13', 'C19'],
+         props=['C13', 'C19', 'C17', 'C12'],
          clauses=['block.body_entered_once', 'block.waits_until_unpaused', 'block.waiter_signals_pause', 'block.waiter_released',
                   'block.body_failure_propagates',
                   'inf.requests_only_inside_block', 'inf.passes_the_pause_waiter', 'inf.fresh_listing_per_iteration',
@@ -707,7 +707,7 @@ from pyvc.bounded import bounded
                         'kopf._core.reactor.orchestration.spawn_missing_peerings',
                         'kopf._core.reactor.orchestration.Ensemble.get_keys', 'kopf._core.reactor.orchestration.Ensemble.get_tasks',
                         'kopf._core.reactor.orchestration.Ensemble.del_keys'],
-         props=['C13', 'C19'],
+         props=['C13', 'C19', 'C03', 'C08', 'C14', 'C15', 'C17', 'C20'],
          clauses=['one_watch_per_served_pair', 'none_for_anything_else', 'keys_match_served_pairs', 'stopped_before_deletion',
                   'peering_streams_match', 'paused_iff_mandatory_peering_is_absent'],
          universe='resources {A namespaced, B cluster-scoped | A, C both namespaced} x watched subsets (4) x namespaces: '
@@ -890,7 +890,7 @@ def O2(b):
 
 
 # ================================================================================================ O3 (owner)
-@harness('O3', targets='kopf._core.reactor.orchestration.orchestrator', props=['C19'],
+@harness('O3', targets='kopf._core.reactor.orchestration.orchestrator', props=['C19', 'C01', 'C09', 'C13', 'C17', 'C20'],
          clauses=['no_lost_revision', 'adjusts_after_every_wakeup', 'cancellation_stops_streams'],
          canaries=['canary.never_adjusts'],
          trusted=['asyncio.Condition: wait() releases the lock while waiting and re-acquires it before returning',
@@ -996,7 +996,7 @@ def O3(vc):
 
 
 # ================================================================================================ O4 (owner, bounded)
-@bounded('O4', targets='kopf._core.reactor.observation._update_resources', props=['C19'],
+@bounded('O4', targets='kopf._core.reactor.observation._update_resources', props=['C19', 'C08', 'C15', 'C17', 'C18'],
          clauses=['served_set_is_exactly_the_selected', 'other_groups_untouched', 'served_objects_are_fresh'],
          universe='real references.Resource/Selector objects: kinds things.v1/things.v2 (example.com) and other.v1 (other.io), '
                   'each in an old and a new variant (categories with/without "mycat", preferred flipped); every prior served '
